@@ -3,6 +3,7 @@ package pc
 import (
 	"context"
 	"fmt"
+	"net/http/httptest"
 	"sort"
 	"sync/atomic"
 	"time"
@@ -33,6 +34,7 @@ type Config struct {
 	Unit        time.Duration
 	Watchdog    time.Duration
 	Auto        bool // the cache is built with a refresh interval (elapsed only when the driver says so)
+	HTTP        bool // the sources are the library's HTTP provider sources in front of harness servers (gated all the same)
 }
 
 type result struct {
@@ -70,6 +72,7 @@ type Driver struct {
 	gate         *gate
 	PubIdx       atomic.Int64 // number of publications completed (for background readers)
 	Snapshots    [][]int      // model vis after each publication, index = PubIdx value
+	servers      []*httptest.Server
 }
 
 func NewDriver(cfg Config) (*Driver, error) {
@@ -77,7 +80,14 @@ func NewDriver(cfg Config) (*Driver, error) {
 	d.sim = &sim{arrive: make(chan *call), fetchAll: make([]int64, len(cfg.Srcs)), fetch: make([]int64, len(cfg.Srcs))}
 	var srcs []pcache.ProviderSource
 	for i, s := range cfg.Srcs {
-		srcs = append(srcs, &source{sim: d.sim, idx: i + 1})
+		src := &source{sim: d.sim, idx: i + 1}
+		if cfg.HTTP {
+			if err := src.serveHTTP(); err != nil {
+				return nil, err
+			}
+			d.servers = append(d.servers, src.srv)
+		}
+		srcs = append(srcs, src)
 		d.content[s] = map[string]int{}
 		d.up[s] = true
 	}
@@ -101,6 +111,9 @@ func NewDriver(cfg Config) (*Driver, error) {
 }
 
 func (d *Driver) Cache() *pcache.ProviderCache { return d.pc }
+
+// HTTP tells whether this driver's sources were HTTP-backed.
+func (d *Driver) HTTP() bool { return d.cfg.HTTP }
 
 func (d *Driver) srcIdx(s string) int {
 	for i, x := range d.cfg.Srcs {
@@ -599,6 +612,10 @@ func (d *Driver) Abort() {
 		}
 	}
 	d.wr, d.wt = nil, nil
+	for _, s := range d.servers {
+		s.Close()
+	}
+	d.servers = nil
 }
 
 func sortedKeys(m map[string]int) []string {
